@@ -652,8 +652,8 @@ func getBufferReturnsLen(f *ssa.Function) bool {
 type r4state struct {
 	cons  aff
 	unver map[ssa.Value]bool // limit readers drained with io.Copy whose exhaustion has not been tested yet
-	lims  map[ssa.Value]aff // undrained LimitReaders -> limit
-	dirty string            // non-empty: why consumption is unknown
+	lims  map[ssa.Value]aff  // undrained LimitReaders -> limit
+	dirty string             // non-empty: why consumption is unknown
 	eq    map[ssa.Value]int64
 	neq   map[ssa.Value]map[int64]bool
 }
@@ -1269,7 +1269,9 @@ func topo(f *ssa.Function) ([]*ssa.BasicBlock, bool) {
 
 // For `for i := 0; i < n; i++ { j := i*k; … data[j : j+a] … data[j+b:] … }` with n == len(data)/k
 // (or `for i := 0; i < len(data); i += k` under len(data)%k == 0), the lemma
-//   i < len/k  =>  i*k + c <= len   for every 0 <= c <= k
+//
+//	i < len/k  =>  i*k + c <= len   for every 0 <= c <= k
+//
 // discharges the slice bounds. Implemented in stride.go (shared with C15).
 func c04R6(r *Report, p *Prog) {
 	f := p.Func("pex", "ParseCompact")
